@@ -126,6 +126,12 @@ def over_tween_factory(handler, registry):
     def over_tween(request):
         hit(request, T_OVER_IN)
         response = handler(request)
+        scn, level = _scn(request)
+        sub = scn.get('sub')
+        if sub and sub.get('place', 0) == 1:
+            # a subrequest started from a TWEEN, on egress (fresh request object, one level deeper)
+            sr = make_request(sub['scn'], level + 1, type(request))
+            request.invoke_subrequest(sr, use_tweens=bool(sub['tweens']))
         hit(request, T_OVER_OUT)
         return response
     return over_tween
@@ -224,7 +230,7 @@ def view(context, request):
         hook()                          # interleaving cases: another thread serves a request meanwhile
         _log(request, VIEW, aux=2)      # probe: still this request's frame, same depth
     sub = scn.get('sub')
-    if sub:
+    if sub and sub.get('place', 0) == 0:
         sr = make_request(sub['scn'], level + 1, type(request))
         request.invoke_subrequest(sr, use_tweens=bool(sub['tweens']))
         _log(request, VIEW, aux=1)      # back in the parent view
